@@ -106,8 +106,8 @@ package eval
 // together": a failure leaves Context.Errors non-nil, which is what RunDSL tests before finalizing).
 //@ func validateSet
 //@   params set
-//@   locals errors
 //@   property C11
+//@   locals errors:*eval.ValidationErrors def:eval.Expression validate:eval.Validator ok:bool err:error
 //@   requires Context != nil && allocated(Context)
 //@   requires* barrier: phase <= 3
 //@   requires recorded: valFailed ==> Context.Errors != nil
@@ -174,8 +174,8 @@ package eval
 
 //@ func (*DSLContext).Roots
 //@   params c
-//@   locals sorted s r found
 //@   property C11
+//@   locals rootDeps:map[string][]eval.Root rootByName:map[string]eval.Root r:eval.Root dep:eval.Root sorted:[]eval.Root length:int i:int name:string deps:[]eval.Root root:eval.Root sorted#2:[]eval.Root otherName:string otherdeps:[]eval.Root other:eval.Root dependsOnOther:bool dep#2:eval.Root dep#3:eval.Root r#2:eval.Root s:[]eval.Root s#2:eval.Root found:bool r#3:eval.Root
 //@   requires c != nil
 //@   requires names.identify.roots: namesIdentify()
 //@   requires deps.exist: forall i int :: 0 <= i && i < len(c.roots) ==> ptr([]Root, rootDeps(c.roots[i])).arr <= alloc()
@@ -192,7 +192,6 @@ package eval
 //@   modifies nothing
 
 //@ func RunDSL
-//@   locals roots executed start
 //@   property C11
 //@   requires Context != nil && allocated(Context) && phase == 0 && !valFailed
 //   -- environment (see Roots): roots are identified by their name; their dependency lists exist
@@ -219,8 +218,8 @@ package eval
 //@   modifies nothing
 //@ func runSet
 //@   params set
-//@   locals executed
 //@   property C11
+//@   locals executed:int recursed:int def:eval.Expression source:eval.Source ok:bool
 //@   callspec Execute params fn def
 //@       ensures dslRan == store(old(dslRan), def, true)
 //@       ensures forall i int :: 0 <= i && i < len(set) ==> set[i] == old(set[i])
